@@ -122,6 +122,12 @@ func c16TimeKey(i int) (octosql.Value, time.Time) {
 
 // c16Histories: watermarked streams; event time of a record = its time key (or zero if zeroTimes).
 func c16Histories(maxLen int, timeKeys []int, zeroTimes, watermarks bool) [][]stream.Ev {
+	return c16HistoriesL(maxLen, timeKeys, zeroTimes, watermarks, false)
+}
+
+// c16HistoriesL: with late=true records and retractions at or below the current watermark are allowed and a
+// watermark may repeat the previous value (the source re-announces it).
+func c16HistoriesL(maxLen int, timeKeys []int, zeroTimes, watermarks, late bool) [][]stream.Ev {
 	var out [][]stream.Ev
 	seen := map[string]bool{}
 	type st struct {
@@ -142,7 +148,11 @@ func c16Histories(maxLen int, timeKeys []int, zeroTimes, watermarks bool) [][]st
 			return
 		}
 		if watermarks {
-			for t := s.wm + 1; t <= 3; t++ {
+			first := s.wm + 1
+			if late && s.wm > 0 {
+				first = s.wm
+			}
+			for t := first; t <= 3; t++ {
 				n := s
 				n.evs = append(append([]stream.Ev{}, s.evs...), stream.W(t))
 				n.wm = t
@@ -151,7 +161,7 @@ func c16Histories(maxLen int, timeKeys []int, zeroTimes, watermarks bool) [][]st
 		}
 		for _, tk := range timeKeys {
 			tv, tt := c16TimeKey(tk)
-			if !zeroTimes && !tt.After(stream.T(s.wm)) && s.wm > 0 {
+			if !late && !zeroTimes && !tt.After(stream.T(s.wm)) && s.wm > 0 {
 				continue
 			}
 			for _, k := range []int64{1, 2} {
@@ -167,7 +177,7 @@ func c16Histories(maxLen int, timeKeys []int, zeroTimes, watermarks bool) [][]st
 		}
 		for pi, idx := range s.present {
 			ins := s.evs[idx]
-			if !zeroTimes && !ins.T.After(stream.T(s.wm)) && s.wm > 0 {
+			if !late && !zeroTimes && !ins.T.After(stream.T(s.wm)) && s.wm > 0 {
 				continue
 			}
 			n := s
@@ -323,9 +333,11 @@ func init() {
 		histW := c16Histories(L, []int{0, 1, 3}, false, true)
 		histZ := c16Histories(r.Pick(3, 4), []int{1, 2}, false, true)
 		hist0 := c16Histories(r.Pick(4, 5), []int{0, 1}, true, false)
-		r.Bound = map[string]interface{}{"max_events": L, "trigger_configs": len(cfgs), "watermarked_histories": len(histW) + len(histZ), "zero_time_histories": len(hist0)}
-		r.Rule = "same explorer as C16 with a step-wise oracle: (a) zero-event-time streams (processed unbuffered): after the n-th, 2n-th.. record of key K under COUNTING n the consolidated output row of K is K's current result; (b) watermarked streams under ON WATERMARK: when watermark W is forwarded the consolidated output equals the grouping of all records with time key <= W and holds no key beyond W unless COUNTING is also configured; (c) at end of stream every key's current result is present exactly once; state = (config, history prefix)"
-		r.Assume("no late records", "COUNTING counts records in the order the group-by processes them; with non-zero event times that order is the event-time buffer's release order, so the counting oracle is evaluated on zero-event-time streams only",
+		// late family: records / retractions at or below the current watermark and re-announced (equal) watermarks
+		histL := c16HistoriesL(r.Pick(4, 5), []int{0, 1}, false, true, true)
+		r.Bound = map[string]interface{}{"max_events": L, "trigger_configs": len(cfgs), "watermarked_histories": len(histW) + len(histZ), "zero_time_histories": len(hist0), "late_histories": len(histL)}
+		r.Rule = "same explorer as C16 with a step-wise oracle: (a) zero-event-time streams (processed unbuffered): after the n-th, 2n-th.. record of key K under COUNTING n the consolidated output row of K is K's current result; (b) watermarked streams under ON WATERMARK: when watermark W is forwarded the consolidated output equals the grouping of all records received so far with time key <= W (a family of histories also delivers late records/retractions at or below the current watermark and repeats watermark values) and holds no key beyond W unless COUNTING is also configured; (c) at end of stream every key's current result is present exactly once; state = (config, history prefix)"
+		r.Assume("COUNTING counts records in the order the group-by processes them; with non-zero event times that order is the event-time buffer's release order, so the counting oracle is evaluated on zero-event-time streams only",
 			"a retract-and-re-emit of an unchanged row is not counted as a second emission")
 		type job struct {
 			c    trigCfg
@@ -342,6 +354,11 @@ func init() {
 			}
 			for _, h := range hist0 {
 				jobs = append(jobs, job{c, h, true})
+			}
+			if c.WM {
+				for _, h := range histL {
+					jobs = append(jobs, job{c, h, false})
+				}
 			}
 		}
 		enum.Parallel(len(jobs), func(i int) {
@@ -402,7 +419,7 @@ func init() {
 					points++
 					got := stream.ConsolidateOut(log, li)
 					w := o.T
-					want := grpBag(c16Group(j.evs, func(e stream.Ev) bool { return !e.Vals[0].Time.After(w) }))
+					want := grpBag(c16Group(j.evs[:o.InputsSeen], func(e stream.Ev) bool { return !e.Vals[0].Time.After(w) }))
 					if j.c.N > 0 {
 						// COUNTING may additionally have fired keys beyond W: compare only keys <= W
 						g2 := stream.Bag{}
